@@ -1,7 +1,9 @@
 (* C05 — Ring buffer slots: no overwrite before consumption, no unordered access. *)
 From Coq Require Import Arith Lia.
 From DC Require Import Disruptor.Pipeline.
-From DC Require Disruptor.HB Disruptor.MultiPub Disruptor.MultiPubHB Disruptor.Handlers Disruptor.MultiPipe.
+From DC Require Disruptor.HB Disruptor.MultiPub Disruptor.MultiPubHB Disruptor.Handlers Disruptor.MultiPipe Disruptor.MultiPipeReplay Disruptor.PipeReplay.
+From Coq Require Import ZArith List.
+Import ListNotations.
 
 (* the producer writes sequence q into slot q mod N only when EVERY handler of EVERY stage has returned from
    the sequence q - N previously stored there — for every ring size, topology, batch size and interleaving *)
@@ -90,6 +92,23 @@ Theorem C05_multi_pipeline_no_overwrite_any_stage : forall N, 1 <= N -> forall H
   forall q h, lo <= q <= hi -> h < H -> q < Handlers.done (MultiPipe.hs x) h + N.
 Proof. exact MultiPipe.mp_no_overwrite_any_stage. Qed.
 
+(* what an accepted (replayed) multi-producer execution is thereby known to satisfy, with the stage hypotheses discharged for the
+   configuration's stage sizes: handlers only at published sequences and in order, stage order, and no overwrite before every
+   handler of every stage is done with the previous occupant *)
+Theorem C05_replayed_multi_pipeline_run_properties : forall N sizes l r',
+  1 <= N -> sizes <> [] -> Forall (fun n => 1 <= n) sizes ->
+  let H := fold_right Nat.add 0 sizes in let stage := fun h => PipeReplay.stage_of sizes h 0 in let last := length sizes - 1 in
+  MultiPipeReplay.replay N H stage last MultiPipeReplay.pinit l 0 = ((-1)%Z, r') ->
+  let x := MultiPipeReplay.pst r' in
+  (forall h i a, h < H -> Handlers.hp (MultiPipe.hs x) h = HBatch i a ->
+     MultiPub.pub (MultiPipe.ms x) i = true /\ i = S (Handlers.done (MultiPipe.hs x) h)) /\
+  (forall h i a g, h < H -> g < H -> Handlers.hp (MultiPipe.hs x) h = HBatch i a -> S (stage g) = stage h ->
+     i <= Handlers.done (MultiPipe.hs x) g) /\
+  (forall t lo hi, MultiPub.tp (MultiPipe.ms x) t = MultiPub.TClaimed lo hi ->
+     forall q h, lo <= q <= hi -> h < H -> q < Handlers.done (MultiPipe.hs x) h + N).
+Proof. exact MultiPipeReplay.replayed_multi_pipeline_properties. Qed.
+
+Print Assumptions C05_replayed_multi_pipeline_run_properties.
 Print Assumptions C05_multi_pipeline_no_overwrite_any_stage.
 Print Assumptions C05_no_overwrite_before_consumption.
 Print Assumptions C05_multi_consumer_accesses_race_free.
